@@ -108,6 +108,10 @@ extern ssize_t mpt_encode_cobs(MPT_STRUCT(encode_state) *info, const struct iove
 		if (info->_ctx) {
 			pos -= info->_ctx - info->scratch;
 			--len;
+			/* finished part of message no longer available */
+			if (pos < 0) {
+				return MPT_ERROR(MissingData);
+			}
 		}
 		/* finished messages: search end of preceding one */
 		tmp.iov_base = cobs->iov_base;
